@@ -21,3 +21,23 @@ theorem lay_end (sizes : List Nat) (pos : Nat) : (lay pos sizes).2 = pos + sizes
   | cons n r ih => simp only [lay, List.sum_cons]; rw [ih]; omega
 
 end Wv.Skin
+
+namespace Wv.Skin
+
+/-- with a non-empty header in front, a section is recorded with offset 0 exactly when it is empty -/
+theorem lay_zero_iff (sizes : List Nat) (pos : Nat) (hp : 0 < pos) (i : Nat) :
+    (lay pos sizes).1[i]? = some 0 ↔ sizes[i]? = some 0 := by
+  induction sizes generalizing pos i with
+  | nil => simp [lay]
+  | cons n r ih =>
+    cases i with
+    | zero =>
+      simp only [lay, List.getElem?_cons_zero, Option.some.injEq]
+      by_cases hn : n = 0
+      · simp [hn]
+      · simp [hn]; omega
+    | succ j =>
+      simp only [lay, List.getElem?_cons_succ]
+      exact ih (pos + n) (by omega) j
+
+end Wv.Skin
